@@ -292,13 +292,13 @@ def Var.dump {α : Type} (B : Str) (x : Var α) : List (Str × α) :=
 
 /-! ### start-up: `register` + `registerChannelValue` / `registerNetworkValue` -/
 
-/-- `ircutils.isChannel(s)` with the default `chantypes='#&!'`, `channellen=50` -/
+/-- `ircutils.isChannel(s)` with its default `chantypes` / `channellen` (extracted) -/
 def isChannel (s : Str) : Bool :=
   match s with
   | [] => false
   | c :: _ =>
-    !s.contains ',' && !s.contains (Char.ofNat 7) && (c = '#' || c = '&' || c = '!') &&
-      s.length ≤ 50 && splitWs s == [s]
+    !s.contains ',' && !s.contains (Char.ofNat 7) && Gen.Registry.chanTypes.contains c &&
+      s.length ≤ Gen.Registry.chanLen && splitWs s == [s]
 
 /-- the part of a cache key below the variable: `name[len(gname)+1:]` when
 `name.lower().startswith(gname)` and it is longer -/
